@@ -139,6 +139,16 @@ theorem shareAll_ext (s self : Nat) (v : Val) : ∀ (sibs : List Desc) (st : Sta
     · exact hrest st
     · exact (shareInstance_ext st s d d.ident v (h d (by simp))).trans (hrest _)
 
+theorem markAbsent_ext (st : State) (s : Nat) (sibs0 : List Desc) (nil? : Option Nat)
+    (h : ∀ d ∈ sibs0, d.life ≠ .singleton) : Ext st (markAbsent st s sibs0 nil?) s := by
+  unfold markAbsent
+  split
+  next k =>
+    split
+    next dk hk => exact shareInstance_ext st s dk dk.ident .absent (h dk (List.mem_of_getElem? hk))
+    · exact Ext.refl st s
+  · exact Ext.refl st s
+
 end Godi.Container
 
 namespace Godi.Container
@@ -204,6 +214,7 @@ theorem frame (beh : Beh) : ∀ fuel,
       · split <;> exact Ext.refl _ _
       next hl =>
         split
+        · exact Ext.refl _ _
         · exact Ext.refl _ _
         · exact ihC st s d wf hd (by rw [hl]; simp)
       next hl => exact ihC st s d wf hd (by rw [hl]; simp)
@@ -286,8 +297,13 @@ theorem frame (beh : Beh) : ∀ fuel,
             · -- void
               exact (hA2.trans (logCtor_ext _ s _ _ _ _ _ _ (hev _ hd2))).trans (setInstance_ext _ s d d.ident .unit hl)
             · -- multi
-              refine ((hA2.trans (alloc_ext _ s _ _ _)).trans (logCtor_ext _ s _ _ _ _ _ _ (hev _ hd2))).trans
-                (storeOuts_ext s _ _ _ ?_)
+              have h0' : ∀ sd ∈ (if (d.sibs.filterMap (findDesc (bumpInv ra.1 d.ctor).descs)).isEmpty then [d]
+                  else d.sibs.filterMap (findDesc (bumpInv ra.1 d.ctor).descs)), sd.life ≠ .singleton := by
+                split
+                · intro sd hsd; simp at hsd; subst hsd; exact hl
+                · exact hsibs
+              refine (((hA2.trans (alloc_ext _ s _ _ _)).trans (logCtor_ext _ s _ _ _ _ _ _ (hev _ hd2))).trans
+                (storeOuts_ext s _ _ _ ?_)).trans (markAbsent_ext _ s _ _ h0')
               have h0 : ∀ sd ∈ (if (d.sibs.filterMap (findDesc (bumpInv ra.1 d.ctor).descs)).isEmpty then [d]
                   else d.sibs.filterMap (findDesc (bumpInv ra.1 d.ctor).descs)), sd.life ≠ .singleton := by
                 split
